@@ -227,6 +227,10 @@ func (c *cmp) function(fd *thrift.FunctionDescriptor, f *Func) {
 		} else {
 			c.typ(s.Type(), f.Ret, ft, fmt.Sprintf("%s(result)", f.Name), tgtResponse, 0)
 		}
+		if s != nil && w.FieldByKey(s.Alias()) != s {
+			// the result field is declared under its (empty) name: also when it is the wrapper's only key
+			c.bad(ft, "result-field-key", "function %s: FieldByKey(%q) on the result wrapper does not return the result field (id 0)", f.Name, s.Alias())
+		}
 		if f.Throw != nil {
 			e := w.FieldById(thrift.FieldID(f.ThrowID))
 			if e == nil || e == s {
